@@ -737,7 +737,7 @@ def viaParse (k : Kind) (len : Option Nat) (b : Bits) : Except Err RVal :=
   | .error e => .error e
   | .ok _ => getFn k b
 
-/-- A dtype without a length takes all the bits from `pos` on (`read`, bitstream.py:303-312; `_read_dtype_list`,
+/-- A dtype without a length takes all the bits from `pos` on (`read`, bitstream.py:310-320; `_read_dtype_list`,
     bits.py:1243-1255). -/
 def resolveStretchy (d : Dt) (avail : Nat) : Except Err Dt :=
   match d.bitlength with
